@@ -70,7 +70,14 @@ impl<const N: usize> AntiAmplifier<N> {
 
     pub fn on_sent(&self, amount: usize) {
         if self.state.load(Ordering::Acquire) == Self::NORMAL {
-            self.credit.fetch_sub(amount, Ordering::AcqRel);
+            // Saturating: what was sent may exceed the balance the burst started from
+            // (padding of Initial datagrams, several segments in one burst, forward headers).
+            // A wrapping subtraction would turn the overdraft into a practically unlimited credit.
+            let _ = self
+                .credit
+                .fetch_update(Ordering::AcqRel, Ordering::Acquire, |credit| {
+                    Some(credit.saturating_sub(amount))
+                });
         }
     }
 
